@@ -20,9 +20,21 @@ class GeminiTap:
         self.callback = ctx.guard(callback, "gemini-tap") if ctx is not None else callback
         self.originals = {}
         self.enabled = True
-        for name in CONCRETE:
-            cls = getattr(gg, name)
-            orig = vars(cls)["evaluate"]
+        self.depth = 0
+        # every library class of the GEMINI hierarchy that carries its own `evaluate` (MI inherits KLGEMINI's today;
+        # were it given one of its own, calls through it must still be observed, and observed once)
+        roots = [c for name in CONCRETE for c in getattr(gg, name).__mro__ if str(c.__module__).startswith("gemclus")]
+        seen, todo = [], list(roots)
+        while todo:
+            c = todo.pop()
+            if c in seen:
+                continue
+            seen.append(c)
+            todo += [s for s in c.__subclasses__() if str(s.__module__).startswith("gemclus")]
+        for cls in seen:
+            orig = vars(cls).get("evaluate")
+            if orig is None or getattr(orig, "__isabstractmethod__", False):
+                continue
             self.originals[cls] = orig
             self.patcher.setattr(cls, "evaluate", self._make(cls, orig))
 
@@ -36,10 +48,14 @@ class GeminiTap:
         tap = self
 
         def evaluate(self, y_pred, affinity, return_grad=False):
-            if not tap.enabled:
+            if not tap.enabled or tap.depth > 0:
                 return orig(self, y_pred, affinity, return_grad)
             P0 = np.array(y_pred, dtype=float, copy=True)
-            res = orig(self, y_pred, affinity, return_grad)
+            tap.depth += 1       # an override that delegates to its parent is one call, seen at the outermost frame
+            try:
+                res = orig(self, y_pred, affinity, return_grad)
+            finally:
+                tap.depth -= 1
             tap.enabled = False
             try:
                 tap.callback(self, P0, affinity, return_grad, res, lambda g, P, A, rg=False: tap.orig_for(g)(g, P, A, rg))
